@@ -42,8 +42,15 @@ def lists_rational(rng, quick):
     fixed = [[4, 8], [4, F(1, 2)], [1, 2], [2, 3, 6], [2, 3, 12], [-2, 3, -6], [F(2, 3), F(3, 2)], [2, 4, 8], [-1, -1],
              [-1, 1], [9, 27, 3], [-8, 4, -2], [F(1, 4), 8, 2], [6, 12, 2], [10, 2, 5], [-4, 16], [F(-1, 2), F(1, 4)],
              [12, 18, F(2, 3)], [-1], [1], [2], [F(1, 2), 2], [4, 4], [-2, -2], [-3, 9, -27]]
+    # towers over one prime: multiplicities with a common divisor that does not divide the others (the integer kernel
+    # needs unimodular elimination steps), also next to an unrelated base and with signs
+    fixed += [[4, 8, 32], [8, 32, 4], [32, 4, 8], [9, 27, 243], [4, 32, 8, 5], [F(4, 9), F(8, 27), F(32, 243)], [-2, F(-1, 4), F(-1, 4)],
+              [16, 64, F(1, 32)], [-4, -8, -32], [F(1, 4), F(1, 8), 32], [4, 8, 32, 2], [-1, -1, 2], [-2, F(1, 2), -3, F(1, 3)]]
+    TOWER = [2, 4, 8, 16, 32, F(1, 2), F(1, 4), F(1, 8), -2, -4, -8, 3, 9, F(1, 9)]
+    towers = [{"d": 1, "bases": [rat(x) for x in c]} for c in itertools.product(TOWER, repeat=3)]
+    rng.shuffle(towers)
     fx = [{"d": 1, "bases": [rat(x) for x in c]} for c in fixed]
-    return fx + out[:(110 if quick else 2500)]
+    return fx + out[:(110 if quick else 2500)] + towers[:(50 if quick else 2744)]
 
 
 def lists_quadratic(rng, quick):
